@@ -1,0 +1,126 @@
+//go:build verif
+
+package mrz
+
+// Contracts for gvc (contract-based deductive verification, see /verif/DESIGN.md).
+// Comment-only file, compiled only under the build tag "verif".
+//
+// ICAO Doc 9303-3 §4.9: check digit = (sum of value(c_i) * weight_i) mod 10 with weights 7,3,1 repeating,
+// value(0-9) = 0-9, value(A-Z) = 10-35, value('<') = 0. A check digit position holding '<' is accepted
+// only for a field consisting of fillers ("unset field" rule stated in the property).
+
+//@ spec func cdValid(c int) bool { (48 <= c && c <= 57) || (65 <= c && c <= 90) || c == 60 || c == 32 }
+//@ spec func cdVal(c int) int { (48 <= c && c <= 57) ? c - 48 : ((65 <= c && c <= 90) ? c - 55 : 0) }
+//@ spec func cdW(k int) int { k == 0 ? 7 : (k == 1 ? 3 : 1) }
+//@ spec func cdSum(s seq, n int) int { n <= 0 ? 0 : cdSum(s, n - 1) + cdVal(s[n - 1]) * cdW((n - 1) % 3) }
+//@ pred cdAllValid(s seq) { forall i :: 0 <= i && i < len(s) ==> cdValid(s[i]) }
+//@ pred allFiller(s seq) { forall i :: 0 <= i && i < len(s) ==> s[i] == 60 }
+//@ pred cdOK(d seq, c seq) { (len(c) == 1 && c[0] == 60 && allFiller(d)) || (cdAllValid(d) && len(c) == 1 && c[0] == 48 + cdSum(d, len(d)) % 10) }
+
+//@ func calcCheckdigit
+//@   props C18 C12
+//@   ensures "err-iff-invalid-char": (result1 == nil) == cdAllValid(data)
+//@   ensures "icao-7-3-1": result1 == nil ==> result0 === seq(48 + cdSum(data, len(data)) % 10)
+//@   loop 1 invariant 0 <= i && i <= len(data) && 0 <= value && value <= 245 * i
+//@   loop 1 invariant value == cdSum(data, i)
+//@   loop 1 invariant forall k :: 0 <= k && k < i ==> cdValid(data[k])
+//@   loop 1 invariant len(weights) == 3 && weights[0] == 7 && weights[1] == 3 && weights[2] == 1
+//@   loop 1 decreases len(data) - i
+//@   assigns nothing
+//@   safety all
+
+//@ func verifyCheckdigit
+//@   props C18 C12
+//@   ensures "accept-iff-check-digit-agrees": (result == nil) == cdOK(data, checkDigit)
+//@   assigns nothing
+//@   safety all
+
+//@ func decodeTD3
+//@   props C18 C12
+//@   ensures "length": result1 == nil ==> len(mrz) == 88
+//@   ensures "document-number-cd": result1 == nil ==> cdOK(mrz[44:53], mrz[53:54])
+//@   ensures "birth-date-cd": result1 == nil ==> cdOK(mrz[57:63], mrz[63:64])
+//@   ensures "expiry-date-cd": result1 == nil ==> cdOK(mrz[65:71], mrz[71:72])
+//@   ensures "optional-data-cd": result1 == nil ==> cdOK(mrz[72:86], mrz[86:87])
+//@   ensures "composite-cd": result1 == nil ==> cdOK(cat(mrz[44:54], mrz[57:64], mrz[65:87]), mrz[87:88])
+//@   ensures result1 == nil ==> result0 != nil
+//@   safety all
+
+//@ func decodeTD2
+//@   props C18 C12
+//@   ensures "length": result1 == nil ==> len(mrz) == 72
+//@   ensures "document-number-cd": result1 == nil && mrz[45] != 60 ==> cdOK(mrz[36:45], mrz[45:46])
+//@   ensures "extended-document-number-cd": result1 == nil && mrz[45] == 60 ==>
+//@        2 <= strIndex1(mrz[64:71], 60)
+//@        && cdOK(cat(mrz[36:45], mrz[64 : 64 + strIndex1(mrz[64:71], 60) - 1]), mrz[64 + strIndex1(mrz[64:71], 60) - 1 : 64 + strIndex1(mrz[64:71], 60)])
+//@   ensures "birth-date-cd": result1 == nil ==> cdOK(mrz[49:55], mrz[55:56])
+//@   ensures "expiry-date-cd": result1 == nil ==> cdOK(mrz[57:63], mrz[63:64])
+//@   ensures "composite-cd": result1 == nil ==> cdOK(cat(mrz[36:46], mrz[49:56], mrz[57:71]), mrz[71:72])
+//@   ensures result1 == nil ==> result0 != nil
+//@   safety all
+
+//@ func decodeTD1
+//@   props C18 C12
+//@   ensures "length": result1 == nil ==> len(mrz) == 90
+//@   ensures "document-number-cd": result1 == nil && mrz[14] != 60 ==> cdOK(mrz[5:14], mrz[14:15])
+//@   ensures "extended-document-number-cd": result1 == nil && mrz[14] == 60 ==>
+//@        2 <= strIndex1(mrz[15:30], 60)
+//@        && cdOK(cat(mrz[5:14], mrz[15 : 15 + strIndex1(mrz[15:30], 60) - 1]), mrz[15 + strIndex1(mrz[15:30], 60) - 1 : 15 + strIndex1(mrz[15:30], 60)])
+//@   ensures "birth-date-cd": result1 == nil ==> cdOK(mrz[30:36], mrz[36:37])
+//@   ensures "expiry-date-cd": result1 == nil ==> cdOK(mrz[38:44], mrz[44:45])
+//@   ensures "composite-cd": result1 == nil ==> cdOK(cat(mrz[5:30], mrz[30:37], mrz[38:45], mrz[48:59]), mrz[59:60])
+//@   ensures result1 == nil ==> result0 != nil
+//@   safety all
+
+//@ func MrzDecode
+//@   props C18 C12
+//@   ensures "only-icao-lengths": result1 == nil ==> len(mrz) == 90 || len(mrz) == 72 || len(mrz) == 88
+//@   ensures result1 == nil ==> result0 != nil
+//@   safety all
+
+// Key seed (MRZ information) routes.
+//@ func buildMrzi
+//@   props C18 C05
+//@   ensures "checked": result1 == nil ==> cdOK(docNum, docNumCD) && cdOK(dob, dobCD) && cdOK(expiry, expiryCD)
+//@   ensures "seed": result1 == nil ==> result0 === cat(docNum, docNumCD, dob, dobCD, expiry, expiryCD)
+//@   assigns nothing
+//@   safety all
+
+//@ func extractMrziTD3
+//@   props C18 C05
+//@   requires len(mrz) == 88
+//@   ensures "seed-ranges": result1 == nil ==> result0 === cat(mrz[44:54], mrz[57:64], mrz[65:72])
+//@   ensures "checked": result1 == nil ==> cdOK(mrz[44:53], mrz[53:54]) && cdOK(mrz[57:63], mrz[63:64]) && cdOK(mrz[65:71], mrz[71:72])
+//@   assigns nothing
+//@   safety all
+
+//@ func extractMrziTD2
+//@   props C18 C05
+//@   requires len(mrz) == 72
+//@   ensures "seed-ranges": result1 == nil && mrz[45] != 60 ==> result0 === cat(mrz[36:46], mrz[49:56], mrz[57:64])
+//@   ensures "seed-ranges-extended": result1 == nil && mrz[45] == 60 ==>
+//@        2 <= strIndex1(mrz[64:71], 60)
+//@        && result0 === cat(mrz[36:45], mrz[64 : 64 + strIndex1(mrz[64:71], 60)], mrz[49:56], mrz[57:64])
+//@        && cdOK(cat(mrz[36:45], mrz[64 : 64 + strIndex1(mrz[64:71], 60) - 1]), mrz[64 + strIndex1(mrz[64:71], 60) - 1 : 64 + strIndex1(mrz[64:71], 60)])
+//@   ensures "checked": result1 == nil ==> cdOK(mrz[49:55], mrz[55:56]) && cdOK(mrz[57:63], mrz[63:64])
+//@   assigns nothing
+//@   safety all
+
+//@ func extractMrziTD1
+//@   props C18 C05
+//@   requires len(mrz) == 90
+//@   ensures "seed-ranges": result1 == nil && mrz[14] != 60 ==> result0 === cat(mrz[5:15], mrz[30:37], mrz[38:45])
+//@   ensures "seed-ranges-extended": result1 == nil && mrz[14] == 60 ==>
+//@        2 <= strIndex1(mrz[15:30], 60)
+//@        && result0 === cat(mrz[5:14], mrz[15 : 15 + strIndex1(mrz[15:30], 60)], mrz[30:37], mrz[38:45])
+//@        && cdOK(cat(mrz[5:14], mrz[15 : 15 + strIndex1(mrz[15:30], 60) - 1]), mrz[15 + strIndex1(mrz[15:30], 60) - 1 : 15 + strIndex1(mrz[15:30], 60)])
+//@   ensures "checked": result1 == nil ==> cdOK(mrz[30:36], mrz[36:37]) && cdOK(mrz[38:44], mrz[44:45])
+//@   assigns nothing
+//@   safety all
+
+//@ func ConvertMrzToMrzi
+//@   props C18 C05
+//@   ensures "only-icao-lengths": result1 == nil ==> len(mrzStr) == 90 || len(mrzStr) == 72 || len(mrzStr) == 88
+//@   ensures "td3-seed": result1 == nil && len(mrzStr) == 88 ==> result0 === cat(mrzStr[44:54], mrzStr[57:64], mrzStr[65:72])
+//@   assigns nothing
+//@   safety all
